@@ -938,6 +938,31 @@ impl CmsView {
         attrs_to_be_signed(&self.attrs)
     }
 
+    /// The parts of a parsed object as a writer value, so that an object
+    /// made by somebody else (the library) can be modified in one part
+    /// (attributes, signature, content ...) and written again by the
+    /// independent writer. The algorithm-identifier variants are the
+    /// caller's choice (`opts`); everything else is carried over.
+    pub fn to_cms(&self, opts: CmsOpts) -> Cms {
+        Cms {
+            content_type: self.content_type.clone(),
+            content: self.content.clone(),
+            certs: self.certs.clone(),
+            crls: self.crls.clone(),
+            sid: self.sid.clone(),
+            attrs: self.attrs.clone(),
+            signature: self.signature.clone(),
+            opts,
+        }
+    }
+
+    /// Index into `attrs` of the (first) attribute of the given type.
+    pub fn attr_index(&self, oid_content: &[u8]) -> Option<usize> {
+        self.attrs.iter().position(|a| {
+            parse_exact(a).ok().and_then(|n| n.get(&[0]).and_then(|o| o.prim_bytes().map(|b| b == oid_content))) == Some(true)
+        })
+    }
+
     /// The harness' own verification of the CMS layer (not of the chain):
     /// digest, content type, signature under the embedded certificate's key,
     /// sid == SKI extension == SHA-1 of the key. `Err(reason)` on failure.
